@@ -65,6 +65,51 @@ def setup():
     return _FSM[0]
 
 
+class _Ssl(object):
+    """Stands in for the ssl module inside ioflo.aio.tcp.clienting: contexts that ioflo creates
+    itself (no `context=` argument) are FakeSslContexts of the current FakeNet; everything else
+    (exception classes, constants) is the real module's."""
+
+    def __init__(self, fsm):
+        self.fsm = fsm
+        self.created = 0
+
+    def __getattr__(self, name):
+        import ssl
+        return getattr(ssl, name)
+
+    def create_default_context(self, purpose=None, **kw):
+        self.created += 1
+        return net.FakeSslContext(self.fsm.net)
+
+    def SSLContext(self, *pa, **kw):
+        self.created += 1
+        return net.FakeSslContext(self.fsm.net)
+
+
+def setup_ssl():
+    """setup() plus an ssl-module double for ioflo.aio.tcp.clienting (idempotent)."""
+    fsm = setup()
+    from ioflo.aio.tcp import clienting
+    if not isinstance(clienting.ssl, _Ssl):
+        clienting.ssl = _Ssl(fsm)
+    return fsm
+
+
+def merge_best(check, results):
+    """results: iterable of (Part, {group: (rank, violation-args)}) from workers.  Merges the parts and
+    records, per group, the violation with the smallest rank (ranks must be comparable tuples)."""
+    best = {}
+    for part, b in results:
+        part.violations = []
+        check.part.merge(part)
+        for g, (rank, v) in b.items():
+            if g not in best or rank < best[g][0]:
+                best[g] = (rank, v)
+    for g in sorted(best, key=lambda g: (best[g][0], g)):
+        check.part.violation(*best[g][1])
+
+
 # ----------------------------------------------------------------------------- policy
 
 class CutPolicy:
